@@ -76,6 +76,28 @@ structure GDirective where
   unknown : List String
 deriving Repr, DecidableEq, Inhabited
 
+/-! ### what a directive records, as probed on the running code -/
+
+/-- one introspectable a probed call left behind (values symbolic: `$p` = the object/string passed as parameter `p`) -/
+structure PIntro where
+  category : String
+  discr : String
+  title : String
+  typeName : String
+  keys : List (String × String)
+  rels : List (Bool × String × String)
+deriving Repr, DecidableEq, Inhabited
+
+/-- one probed directive call: `actions` = (discriminator, order, action info is the calling statement, indices of the
+introspectables the action carries) -/
+structure PCall where
+  name : String
+  slice : String
+  commit : String
+  actions : List (String × String × Bool × List Nat)
+  intros : List PIntro
+deriving Repr, DecidableEq, Inhabited
+
 /-! ### specification side -/
 
 /-- what a recorded value must be, in terms of the directive's parameters -/
@@ -218,11 +240,47 @@ def entriesOk (d : GDirective) (s : SDirective) : Bool :=
 def dirOk (d : GDirective) (s : SDirective) : Bool :=
   d.file == s.file && d.name == s.name && d.unknown.isEmpty && entriesOk d s && introsOk d s && keysOk d s && relsOk d s && actsOk d s
 
+/-- the parameter names mentioned by a symbolic value: identifiers after `$` / `${` -/
+def sentTokensAux : List Char → Option (List Char) → List String
+  | [], none => []
+  | [], some cur => if cur.isEmpty then [] else [String.ofList cur.reverse]
+  | c :: r, none => if c == '$' then sentTokensAux r (some []) else sentTokensAux r none
+  | c :: r, some cur =>
+    if c.isAlphanum || c == '_' then sentTokensAux r (some (c :: cur))
+    else if c == '{' && cur.isEmpty then sentTokensAux r (some [])
+    else (if cur.isEmpty then [] else [String.ofList cur.reverse])
+      ++ (if c == '$' then sentTokensAux r (some []) else sentTokensAux r none)
+
+def sentTokens (v : String) : List String := sentTokensAux v.toList none
+
+/-- a token `p`, `p0`, `p1`, … names parameter `p` -/
+def tokenOf (p t : String) : Bool :=
+  let pl := p.toList
+  let tl := t.toList
+  tl.take pl.length == pl && (tl.drop pl.length).all Char.isDigit
+
+/-- a probed value is compatible with the specified shape of its key: a key specified to hold parameter `p` mentions
+no other parameter's sentinel (a swap would); a constant is that constant -/
+def agrees : Shape → String → Bool
+  | .param p, v => (sentTokens v).all (tokenOf p)
+  | .resolved p, v => (sentTokens v).all (fun t => tokenOf p t || t == "dotted_target")
+  | .const c, v => v == c
+  | _, _ => true
+
+/-- every probed key of every introspectable whose category the slice specifies has a specified key of that name whose
+shape it agrees with (or the slice takes extra `**options`) -/
+def callAgrees (ss : List SDirective) (c : PCall) : Bool :=
+  ss.all fun s => s.name != c.slice || c.intros.all fun i =>
+    let vars := (s.intros.filter fun si => si.category == "'" ++ i.category ++ "'" || si.category.toList.contains '%').map (·.var)
+    vars.isEmpty || i.keys.all fun kv =>
+      s.keys.any (fun sk => vars.contains sk.var && sk.key == kv.1 && agrees sk.shape kv.2)
+        || s.keys.any (fun sk => match sk.shape with | .extra _ => true | _ => false)
+
 /-- the documented category names against the recorded ones: `docs` = the generated headings of introspector.rst,
 `undoc` = the specified list of category expressions the chapter is silent about -/
-def docOk (docs undoc : List String) (ds : List GDirective) (ss : List SDirective) : Bool :=
+def docOk (docs undoc : List String) (calls : List PCall) (ss : List SDirective) : Bool :=
   let quoted := docs.map fun c => "'" ++ c ++ "'"
-  let recorded := ds.flatMap fun d => d.intros.map (·.category)
+  let recorded := calls.flatMap fun c => c.intros.map fun i => "'" ++ i.category ++ "'"
   -- every recorded category is documented, or is one the chapter does not list
   recorded.all (fun c => quoted.contains c || undoc.contains c)
   -- every heading is recorded by some directive
